@@ -23,6 +23,9 @@ impl Rng {
     pub fn pick<T: Copy>(&mut self, xs: &[T]) -> T {
         xs[self.below(xs.len())]
     }
+    pub fn pick_ref<'a, T>(&mut self, xs: &'a [T]) -> &'a T {
+        &xs[self.below(xs.len())]
+    }
     pub fn range(&mut self, lo: usize, hi: usize) -> usize {
         lo + self.below(hi - lo + 1)
     }
